@@ -71,7 +71,10 @@ def parse_rejects(out):
         m = REJECT_RE.search(line)
         if m:
             parts = [x.strip() for x in m.group(1).split(',')]
-            rej.append({'id': int(parts[0]), 'prop': parts[1].strip('"'), 'clause': parts[2].strip('"')})
+            r = {'id': int(parts[0]), 'prop': parts[1].strip('"'), 'clause': parts[2].strip('"')}
+            if len(parts) > 3:
+                r['detail'] = parts[3].strip('"')
+            rej.append(r)
     return rej
 
 
